@@ -18,6 +18,8 @@ type Full struct {
 	Depth    int
 	// VarsFree makes variable alternatives cost nothing (variable-rich scripts)
 	VarsFree bool
+	// ExtraUnused adds, as a costed alternative, a declaration that nothing uses
+	ExtraUnused bool
 }
 
 func (g *Full) vc() int {
@@ -29,7 +31,7 @@ func (g *Full) vc() int {
 
 var poolType = map[string]string{
 	"acc": "account", "acd": "account", "ast": "asset", "num": "number", "nun": "number",
-	"mon": "monetary", "mom": "monetary", "por": "portion", "pos": "portion", "str": "string",
+	"mon": "monetary", "mom": "monetary", "por": "portion", "pos": "portion", "str": "string", "xtr": "account",
 }
 
 func (g *Full) v(name string) *gen.Var {
@@ -326,6 +328,15 @@ func (g *Full) Program(e *mc.Explorer) *gen.Program {
 			}
 		}
 		p.Vars = append(p.Vars, d)
+	}
+	if g.ExtraUnused && e.ChooseW(2, []int{0, 1}) == 1 {
+		// a declared-but-never-used variable, first or last in the block
+		d := &gen.VarDecl{Type: &gen.TypeName{Name: "account"}, Name: gen.V("xtr")}
+		if e.Choose(2) == 0 {
+			p.Vars = append([]*gen.VarDecl{d}, p.Vars...)
+		} else {
+			p.Vars = append(p.Vars, d)
+		}
 	}
 	if len(p.Vars) == 0 && e.ChooseW(2, []int{0, 1}) == 1 {
 		p.HasVars = true // an empty vars block
